@@ -33,6 +33,7 @@ def run(ck):
     ck.rule("C13.R2", "buffer is cleared before formatting starts", floor=1)
     ck.rule("C13.R3", "single-line formatters end each Ok path with exactly one newline write", floor=3)
     ck.rule("C13.R4", "writer combinators route as their definition denotes", floor=9)
+    ck.rule("C13.R10", "every field a formatter's visitor is handed ends up in the record: no record_* path drops a field (except after an earlier write error)", floor=4)
     ck.rule("C13.R9", "formatter options have the polarity of their name: nothing is written because a display_* flag is off", floor=4)
     ck.rule("C13.R8", "a formatting panic the caller caught does not silence the thread: get_default's re-entrancy flag is given back on unwinding (as C02.R6)", floor=3)
     ck.rule("C13.R7", "every formatter takes the spans it names from the event's own scope (explicit parent / explicit root honoured), never from the thread's current span directly", floor=5)
@@ -47,6 +48,7 @@ def run(ck):
     r7(ck, F)
     r7b(ck, F)
     r9(ck, F)
+    r10(ck, F)
     from rules import C02
     C02.r6(ck, F, rid="C13.R8")
 
@@ -431,3 +433,38 @@ def r9(ck, F):
             ck.bad("C13.R9", key, where(b.raw["sp"]), "; ".join(sorted(bad)[:3]), fn=b.path)
         else:
             ck.ok("C13.R9", key, fn=b.path, detail=sorted(seen))
+
+
+def r10(ck, F, rid="C13.R10", only=None):
+    """`every event field with its value`, `every span ... with its fields`: the Visit impls of the fmt formatters
+    (DefaultVisitor, PrettyVisitor, JsonVisitor, FieldFnVisitor) write -- or store, or hand to a sibling record_* -- each
+    field on every returning path. The only legitimate silent path is "an earlier write already failed" (self.result)."""
+    EFFECT = ("write_fmt", "write_str", "write_char", "write_padded", "insert", "call", "call_mut", "call_once", "serialize_entry")
+    for i in F.impls_of("tracing_core::field::Visit"):
+        if not i["self_ty"].startswith("tracing_subscriber::fmt::"):
+            continue
+        vname = i["self_ty"].rsplit("::", 1)[-1].split("<")[0]
+        if only and vname != only:
+            continue
+        for m, path in sorted(i["methods"].items()):
+            b = F.body(path)
+            if b is None:
+                continue
+            drops = []
+            for p in PathEval(b).run():
+                if p.end != "return":
+                    continue
+                eff = [c for c in p.calls if c[1].get("method") in EFFECT or (c[1].get("trait") == "tracing_core::field::Visit" and str(c[1].get("method", "")).startswith("record_"))]
+                if eff:
+                    continue
+                conds = [(show(c[0]), c[1]) for c in p.conds]
+                if any((t.startswith("is_err(arg1.result)") and v != 0) or (t.startswith("is_ok(arg1.result)") and v == 0) for t, v in conds):
+                    continue
+                why = [t for t, v in conds if v != 0 and "result" not in t and t not in ("0", "1")]
+                drops.append(why[-1] if why else "unconditionally")
+            for d in sorted(set(drops)):
+                what = "fields whose name starts with `log.`" if "'log.'" in d else "a field under `%s`" % d[:60]
+                ck.bad(rid, "%s::%s drops %s" % (vname, m, what), where(b.raw["sp"]),
+                       "a returning path writes nothing for the field it was handed (condition: %s): the record does not contain every field" % d[:80], fn=b.path)
+            if not drops:
+                ck.ok(rid, "%s::%s writes every field it is handed" % (vname, m), fn=b.path)
